@@ -5,9 +5,10 @@ import PoxModel.Model.STree
 PART 1 — probe codec
 * `hexStr`, `decStr`            — `hex(int(dpid))[2:]`, `str(port_num)` (:184,187,192)
 * `probeTlvs`, `packTlv`, `probeFrame` — `_create_discovery_packet` (:178-206) + `simple_tlv.pack` (lldp.py:266-270) + the Ethernet header
-* `nextTlv`, `parseLldp`        — `lldp.next_tlv` / `lldp.parse` (lldp.py:110-189) incl. the per-type `_parse_data` checks of
+* `nextTlv`, `parseLldp`        — `lldp.next_tlv` / `lldp.parse` (lldp.py:112-195) incl. the per-type `_parse_data` checks of
     chassis_id, port_id, ttl, end_tlv; system_name/description, port_description and unknown types are opaque payloads.
-    TLV types 7, 8, 127 (capabilities, management address, organisationally specific) are outside the model (`.error "unmodelled"`).
+    TLV type 8 (management address) is outside the model (`.error "unmodelled"`); an exception of a TLV parser is caught by
+    `next_tlv` (returns None), so no LLDP parser exception reaches the handler.
 * `pyInt`                       — CPython `int(s, base)` literal grammar (`PyLong_FromString`): ASCII white space, sign, `0x`, single `_`
 * `lookInSysDesc`, `recover`    — `_handle_openflow_PacketIn` :366-454: which (dpid, port) the handler attributes the probe to.
     Payloads are assumed ASCII (`bytes.decode()` of other input is outside the model).
@@ -84,23 +85,27 @@ def tlvDataOk (type : Nat) (data : Bytes) : Except String Unit :=
     if data.length ≠ 2 then .error "MalformedException" else .ok ()
   else if type = END_TLV then
     if data.length ≠ 0 then .error "MalformedException" else .ok ()
-  else if type = 7 ∨ type = 8 ∨ type = 127 then .error "unmodelled"
+  else if type = 7 then                                   -- system_capabilities: struct.unpack("!HH", data)
+    if data.length ≠ 4 then .error "struct.error" else .ok ()
+  else if type = 127 then                                 -- organizationally_specific: struct.unpack("3sB", data[0:4])
+    if data.length < 4 then .error "struct.error" else .ok ()
+  else if type = 8 then .error "unmodelled"               -- management_address
   else .ok ()
 
-/-- `lldp.next_tlv(array)`: `ok none` = returns None, `ok (some (tlv, consumed))` -/
+/-- `lldp.next_tlv(array)`: `ok none` = returns None, `ok (some (tlv, consumed))`.  The bound check counts the two header bytes,
+    and an exception of the TLV's own parser is caught and turns into None (lldp.py:112-141). -/
 def nextTlv (arr : Bytes) : Except String (Option (Tlv × Nat)) :=
   match arr with
   | b0 :: b1 :: rest =>
     let typelen := b0.toNat * 256 + b1.toNat
     let type := typelen / 512
     let length := typelen % 512
-    if arr.length < length then .ok none          -- the bound check as written (does not count the 2 header bytes)
+    if arr.length < 2 + length then .ok none
     else
       let data := rest.take length
-      if data.length < length then .error "TruncatedException"     -- simple_tlv.parse
-      else match tlvDataOk type data with
-        | .error e => .error e
-        | .ok () => .ok (some (⟨type, data⟩, 2 + length))
+      match tlvDataOk type data with
+      | .error e => if e = "unmodelled" then .error e else .ok none
+      | .ok () => .ok (some (⟨type, data⟩, 2 + length))
   | _ => .ok none
 
 /-- the `while True` loop of `lldp.parse` (:171-181); `ok none` = returned without `parsed = True` -/
